@@ -20,7 +20,7 @@ for line in open(demo + "/RUN.txt"):
     l = line.strip()
     if l.startswith("$ "):
         l = l[2:]
-    if not re.match(r"(export|cp|timeout|go|rm|mkdir|cd|bash|sh|chmod|\./|GOFLAGS=)", l):
+    if not re.match(r"(export|cp|timeout|go|rm|mkdir|cd|bash|sh|chmod|\./|GOFLAGS=|rc=\d+ *;)", l):
         continue
     l = re.sub(r"\s+#.*$", "", l)
     for ph in ("<this dir>", "<this-dir>", "<demo dir>", "<demo>", "<this directory>", "<DEMO>", "$DEMO", "<dir>"):
